@@ -5,6 +5,7 @@ cd /verif
 git -C /repo status --short | grep -q . && { echo "/repo is not clean"; exit 2; }
 for d in seeded/C*-*; do
   [ -f "$d/patch.diff" ] || continue
+  grep -q run_against_repo "$d/meta.json" 2>/dev/null && [ -z "${SEED_CONFIRM_ALL:-}" ] && continue
   id=$(basename "$d" | cut -c1-3)
   if ! git -C /repo apply --check "$PWD/$d/patch.diff" 2>/dev/null; then echo "$d: does not apply to /repo"; continue; fi
   git -C /repo apply "$PWD/$d/patch.diff"
